@@ -376,7 +376,7 @@ def translate_module(src_root):
     body = tr.B(fn.body, dict(after=lambda: (_ for _ in ()).throw(Untranslatable("control falls off the end")), brk=None, cont=None))
     text = "\n".join(tr.loops)
     text += "/-- translated from `tz/tz.py:__get_gettz.GettzFunc.nocache` -/\ndef nocache (e : Gettz.Env) (name : Option String) : Gettz.R :=\n%s\n" % indent(body)
-    return text, {"tz/tz.py:GettzFunc.nocache": hashlib.sha256(ast.dump(fn).encode()).hexdigest()[:16]}
+    return text, {"GettzFunc.nocache/nocache": hashlib.sha256(ast.dump(fn).encode()).hexdigest()[:16]}
 
 
 if __name__ == "__main__":
